@@ -129,15 +129,23 @@ class ForecasterOnePhase:
             the time-to-depletion (BDF), using the same units as time on prod.
             If not provided, will find best tau.
         """
+        # curve_fit's default stopping rules are absolute (gradient) or relative to the whole
+        # parameter vector: fit in units of the last observation, where M and tau are of order one
+        m_unit = abs(float(cum_production[-1])) or 1.0
+        t_unit = abs(float(time_on_production[-1])) or 1.0
+        cum_scaled = np.asarray(cum_production, dtype=np.float64) / m_unit
         if tau is None:
             # (in floating point: twice the last entry of an int32 column above 2**30 wraps negative)
             p0 = [float(cum_production[-1]) * 2, float(time_on_production[-1]) * 5]
             bounds = self.bounds.fit_bounds()
             p0 = self.bounds.regularize_initial_guess(p0)
+            units = np.array([m_unit, t_unit])
 
             def forecast(time_on_production, M, tau):
                 """Forecast cumulative production."""
-                return _forecast_cum_onephase(self.rf_curve, time_on_production, M, tau)
+                return _forecast_cum_onephase(
+                    self.rf_curve, time_on_production, M, tau * t_unit
+                )
 
         else:
             p0 = [
@@ -145,6 +153,7 @@ class ForecasterOnePhase:
             ]
             bounds = self.bounds.M
             p0 = self.bounds.regularize_initial_guess(p0)
+            units = np.array([m_unit])
 
             def forecast(time_on_production, M):
                 """Forecast cumulative production."""
@@ -153,10 +162,11 @@ class ForecasterOnePhase:
         fit, covariance = curve_fit(
             forecast,
             time_on_production,
-            cum_production,
-            p0,
-            bounds=bounds,
+            cum_scaled,
+            np.asarray(p0) / units,
+            bounds=tuple(np.asarray(b) / units for b in bounds),
         )
+        fit = fit * units
         self.time_on_production = time_on_production
         self.cum_production = cum_production
         if tau is None:
